@@ -110,3 +110,86 @@ func shuffle(md protoreflect.MessageDescriptor, b []byte, l *lcg) []byte {
 	}
 	return out
 }
+
+// InjectUnknown re-encodes a reference-encoded message with extra fields whose numbers the
+// schema does not declare, inserted at pseudo-random positions of every message level
+// (between fields; occurrences of a repeated field are kept contiguous). The declared content
+// is unchanged, so the reference decoder still yields the same known fields.
+func InjectUnknown(md protoreflect.MessageDescriptor, b []byte, seed uint64) []byte {
+	l := lcg(seed | 1)
+	return injectUnknown(md, b, &l)
+}
+
+func unknownField(md protoreflect.MessageDescriptor, l *lcg) []byte {
+	var num protowire.Number
+	for i := 0; i < 50; i++ {
+		num = protowire.Number(1 + l.next(3000))
+		if md.Fields().ByNumber(num) == nil && (num < 19000 || num > 19999) {
+			break
+		}
+	}
+	if md.Fields().ByNumber(num) != nil {
+		num = 18999
+	}
+	switch l.next(4) {
+	case 0:
+		return protowire.AppendVarint(protowire.AppendTag(nil, num, protowire.VarintType), uint64(l.next(1<<20)))
+	case 1:
+		return protowire.AppendFixed64(protowire.AppendTag(nil, num, protowire.Fixed64Type), uint64(l.next(1<<30)))
+	case 2:
+		return protowire.AppendFixed32(protowire.AppendTag(nil, num, protowire.Fixed32Type), uint32(l.next(1<<30)))
+	}
+	payload := make([]byte, l.next(6))
+	for i := range payload {
+		payload[i] = byte(l.next(256))
+	}
+	return protowire.AppendBytes(protowire.AppendTag(nil, num, protowire.BytesType), payload)
+}
+
+func injectUnknown(md protoreflect.MessageDescriptor, b []byte, l *lcg) []byte {
+	fs, err := Walk(b)
+	if err != nil {
+		return b
+	}
+	out := make([]byte, 0, len(b)+16)
+	maybe := func() {
+		if l.next(3) == 0 {
+			out = append(out, unknownField(md, l)...)
+		}
+	}
+	var prev protowire.Number = -1
+	for _, f := range fs {
+		if f.Num != prev {
+			maybe()
+		}
+		prev = f.Num
+		raw := b[f.Start:f.End]
+		fd := md.Fields().ByNumber(f.Num)
+		if fd != nil && f.Typ == protowire.BytesType && fd.Kind() == protoreflect.MessageKind {
+			var inner []byte
+			if fd.IsMap() {
+				inner = append([]byte{}, b[f.VOff:f.End]...)
+				if vd := fd.MapValue(); vd.Kind() == protoreflect.MessageKind {
+					if efs, err := Walk(inner); err == nil {
+						var re []byte
+						for _, ef := range efs {
+							if ef.Num == 2 && ef.Typ == protowire.BytesType {
+								re = protowire.AppendTag(re, 2, protowire.BytesType)
+								re = protowire.AppendBytes(re, injectUnknown(vd.Message(), inner[ef.VOff:ef.End], l))
+							} else {
+								re = append(re, inner[ef.Start:ef.End]...)
+							}
+						}
+						inner = re
+					}
+				}
+			} else {
+				inner = injectUnknown(fd.Message(), b[f.VOff:f.End], l)
+			}
+			raw = protowire.AppendBytes(protowire.AppendTag(nil, f.Num, f.Typ), inner)
+		}
+		out = append(out, raw...)
+	}
+	maybe()
+	return out
+}
